@@ -92,7 +92,14 @@ func ruleErrorIffDiagnostic(c *Ctx, r *Report, rule string) {
 				return false
 			}
 			res := fn.Type().(*types.Signature).Results()
-			return res.Len() == 1 && isErrorType(res.At(0).Type())
+			if res.Len() == 1 && isErrorType(res.At(0).Type()) {
+				return true
+			}
+			// the step parse delegates its whole result to
+			if root, ok := c.infoFor(fd).Defs[fd.Name].(*types.Func); ok {
+				return res.Len() > 0 && types.Identical(res, root.Type().(*types.Signature).Results())
+			}
+			return false
 		}
 		h.Load = func(in *Interp, st *State, e ast.Expr) (Value, bool) {
 			switch e := e.(type) {
@@ -536,6 +543,7 @@ func checkC20(c *Ctx, r *Report) {
 	ruleChunkImmutable(c, r, "input-verbatim")
 	ruleNoLookback(c, r, "no-lookback")
 	ruleLexPrimitivesOnly(c, r, "lexer-primitives")
+	ruleCursorSteps(c, r, "cursor-steps")
 	ruleSemicolon(c, r, "semicolon")
 	ruleTokenTables(c, r, "token-tables", spec)
 	// parentheses emit nothing themselves and nest through expr()
